@@ -107,7 +107,7 @@ CHECKS = {
         engine="seqx",
         category="model_checking",
         technique="differential enumeration of mirrored study pairs (maximise f vs minimise -f, every flipped subset of objectives) over the full product sampler x pruner x program x seed with exactly representable (dyadic, pairwise distinct) values",
-        text="For 9 samplers (10 with GP in thorough) x 8 pruners (Threshold mirrored) x 12 programs whose objective and intermediate values are pairwise distinct dyadic rationals x seeds x every base direction vector x every non-empty flipped subset: both runs must have identical params, states, number of reported steps (= pruning step), sign-flipped values and the same best trial(s); an empty-flip control pair must be identical (else internal error); each pruner must actually prune in some pairs (vacuity guard).",
+        text="For 9 samplers (10 with GP in thorough) x 9 pruner configurations (Threshold mirrored; Patient with and without a wrapped pruner) x 13 programs whose objective and intermediate values are pairwise distinct dyadic rationals (one program also reports NaN at one step per trial) x seeds x every base direction vector x every non-empty flipped subset: both runs must have identical params, states, number of reported steps (= pruning step), sign-flipped values and the same best trial(s); an empty-flip control pair must be identical (else internal error); each pruner must actually prune in some pairs (vacuity guard).",
         note="In-memory storage; values are dyadic so negation/means/percentiles are exact; ties are rejected and counted (0 on this tree).",
         design="3/C13",
     ),
